@@ -45,6 +45,7 @@ int main(int argc, char** argv) {
     if (count_only) { printf("%ld\n", n); return 0; }
     if (to < 0 || to > n) to = n;
     if (only >= 0) { from = only; to = only + 1; }
+    if (!out.empty() && out != "/dev/null") { const char* wr = getenv("OMPI_COMM_WORLD_RANK"); if (wr && getenv("OMPI_COMM_WORLD_SIZE") && atoi(getenv("OMPI_COMM_WORLD_SIZE")) >= 1 && getenv("VH_MPI_RUN")) out += std::string(".rank") + wr; }
     if (!out.empty()) {
         g_out = open(out.c_str(), O_WRONLY | O_CREAT | O_APPEND, 0644);
         if (g_out < 0) { perror("open --out"); return 2; }
